@@ -1,6 +1,8 @@
 import TcheranVerif.Model.Eval
 import TcheranVerif.Model.Rules
 import TcheranVerif.Proofs.EvalBound
+import TcheranVerif.Proofs.Mirror
+import TcheranVerif.Props.C07
 /-!
 # C16 — evaluation: proper blend, packed representation, table-level colour symmetry
 
@@ -20,7 +22,15 @@ import TcheranVerif.Proofs.EvalBound
   `Proofs/EvalBound.lean`: every fold of the evaluation keeps "accumulator = pack m e with m, e between
   class bounds × number of men processed"; class bounds are checked against the regenerated tables by the
   kernel; the rest is linear arithmetic. `SliderTables` (C07) bounds the slider popcounts.
-  `eval_mirror` for whole positions is carried by the correspondence/oracle stream only: partial.
+* **`eval_mirror`** — for every such position the evaluation of `Game.mirror` (every man on the rank-flipped
+  square with the other colour, other side to move, rights swapped, e.p. target flipped) seen from its side
+  to move **equals** the evaluation of the position. `Proofs/MirrorBits.lean` gives `swap_bytes` its set
+  meaning for all 2^64 boards (`mem_flipV`) and commutes it with every shift; `Proofs/Mirror.lean` shows
+  each term changes sign: slider / leaper attack sets commute with the flip (through C07's ray-walk
+  equality), every fold over a bitboard is independent of the iteration order (the flipped board is *not*
+  iterated in flipped order), the king-safety lookup needs the one-king hypothesis, the blend is odd because
+  truncating division is. `mirror_involutive`, `mirror_consistent`. The correspondence stream checks that
+  the second position of each pair the implementation is run on is exactly `Game.mirror` of the first.
 -/
 namespace Tcheran.Props.C16
 open Tcheran Tcheran.Eval
@@ -111,6 +121,53 @@ theorem eval_bounded_counts (T : SliderTables) (g : Game) (hc : Board.Consistent
     ∃ v, Eval.eval g = some v ∧ -31130 ≤ v ∧ v ≤ 31130 :=
   eval_total_bounded T g hc hinc hKw hKb hW hB
 
+/-- the slider tables of the engine are the ray walks (`Props.C07`) -/
+theorem sliderTables : SliderTables :=
+  ⟨Tcheran.Props.C07.rook_table_geometric, Tcheran.Props.C07.bishop_table_geometric⟩
+
+/-- **eval_mirror**: colour swap + board flip leaves the evaluation, seen from the side to move, unchanged,
+for every legal position -/
+theorem eval_mirror (T : SliderTables) (g : Game) (hc : Board.Consistent g.board)
+    (hl : Rules.legalPos (Rules.ofGame g) = true) (hinc : g.inc = Game.incInit theCfg g.board) :
+    Eval.eval (Game.mirror theCfg g) = Eval.eval g :=
+  eval_mirror_legal T g hc hl hinc
+
+/-- the same with the engine's own tables (C07 discharged) and from the counts alone -/
+theorem eval_mirror_tables (g : Game) (hc : Board.Consistent g.board)
+    (hinc : g.inc = Game.incInit theCfg g.board)
+    (hKw : cnt g.board (isK .white) sqs = 1) (hKb : cnt g.board (isK .black) sqs = 1)
+    (hW : cnt g.board (isP .white) sqs + cnt g.board (isO .white) sqs + cnt g.board (isK .white) sqs ≤ 16)
+    (hB : cnt g.board (isP .black) sqs + cnt g.board (isO .black) sqs + cnt g.board (isK .black) sqs ≤ 16) :
+    Eval.eval (Game.mirror theCfg g) = Eval.eval g :=
+  eval_mirror_counts sliderTables g hc hinc hKw hKb hW hB
+
+/-- the transformation is an involution on boards and keeps the three views in agreement, so the mirrored
+position satisfies the hypotheses of every theorem stated for consistent boards -/
+theorem mirror_involutive (b : Board) : b.mirror.mirror = b := mirror_mirror b
+theorem mirror_views_agree (b : Board) (hc : Board.Consistent b) : Board.Consistent b.mirror :=
+  mirror_consistent b hc
+
+/-- set meaning of `Bitboard::flip_vertically` for every board -/
+theorem flip_vertically_spec (b : BB) (t : Sq) : mem (BB.flipV b) t = mem b t.flip := mem_flipV b t
+
+/-- non-vacuity: `7b/8/8/4Pp2/3K4/8/8/k7 w - -` meets every hypothesis of `eval_mirror`, and so does its
+mirror image -/
+def demoBoard : Board :=
+  ((((Board.empty.setAt ⟨27, by decide⟩ ⟨.king, .white⟩).setAt ⟨0, by decide⟩ ⟨.king, .black⟩).setAt
+    ⟨36, by decide⟩ ⟨.pawn, .white⟩).setAt ⟨37, by decide⟩ ⟨.pawn, .black⟩).setAt ⟨63, by decide⟩ ⟨.bishop, .black⟩
+def demoGame : Game := Game.fromState theCfg demoBoard .white Rights.none none 0 0
+
+theorem demo_consistent : Board.Consistent demoBoard := by
+  unfold demoBoard
+  refine Board.consistent_setAt _ _ _ (Board.consistent_setAt _ _ _ (Board.consistent_setAt _ _ _
+    (Board.consistent_setAt _ _ _ (Board.consistent_setAt _ _ _ Board.consistent_empty ?_) ?_) ?_) ?_) ?_ <;>
+    decide +kernel
+theorem demo_legal : Rules.legalPos (Rules.ofGame demoGame) = true := by decide +kernel
+theorem demo_mirror_legal : Rules.legalPos (Rules.ofGame (Game.mirror theCfg demoGame)) = true := by
+  decide +kernel
+theorem demo_eval_mirror : Eval.eval (Game.mirror theCfg demoGame) = Eval.eval demoGame :=
+  eval_mirror sliderTables demoGame demo_consistent demo_legal rfl
+
 /-- non-vacuity: a concrete blend -/
 example : forPhase (pack 100 200) 20 = some 116 := by decide
 
@@ -128,3 +185,13 @@ end Tcheran.Props.C16
 #print axioms Tcheran.Props.C16.phaseCountMax_eq
 #print axioms Tcheran.Props.C16.eval_bounded
 #print axioms Tcheran.Props.C16.eval_bounded_counts
+#print axioms Tcheran.Props.C16.sliderTables
+#print axioms Tcheran.Props.C16.eval_mirror
+#print axioms Tcheran.Props.C16.eval_mirror_tables
+#print axioms Tcheran.Props.C16.mirror_involutive
+#print axioms Tcheran.Props.C16.mirror_views_agree
+#print axioms Tcheran.Props.C16.flip_vertically_spec
+#print axioms Tcheran.Props.C16.demo_consistent
+#print axioms Tcheran.Props.C16.demo_legal
+#print axioms Tcheran.Props.C16.demo_mirror_legal
+#print axioms Tcheran.Props.C16.demo_eval_mirror
